@@ -13,6 +13,7 @@ Unwind edges of inlined code are dropped (the CFG used by the rules ignores unwi
 import copy
 
 from . import mir as M
+from . import thread as T
 
 BLOCK_KEYS = ("target", "unwind", "otherwise", "imaginary", "drop")
 
@@ -72,8 +73,9 @@ def recursive_fns(crate, without=None):
 
 
 class Inliner:
-    def __init__(self, crate, stop=lambda path: False, max_blocks=6000, max_depth=8, head=None, closures=True):
+    def __init__(self, crate, stop=lambda path: False, max_blocks=6000, max_depth=8, head=None, closures=True, thread=True):
         self.crate = crate
+        self.thread = thread
         self.head = head
         self.closures = closures   # also inline direct calls of closure literals (`let f = |x| ..; f(a)`)
         self.stop = (lambda p: p == head or stop(p)) if head else stop
@@ -315,6 +317,9 @@ class Inliner:
             blk["term"] = {"k": "goto", "target": boff, "sp": t.get("sp"), "inlined_call": p}
             self.inlined.append((p, t.get("sp")))
         out["inlined"] = list(self.inlined)
+        if self.inlined and self.thread:
+            # the joins at inlined returns make failing paths seem able to continue: separate them (see thread.py)
+            out = T.thread(out)
         return out
 
 
